@@ -386,12 +386,12 @@ Qed.
 
 (* ---------- learning ---------- *)
 
-Lemma sinv_add_learnt (st1 : sst) why lits (w : option (lit * lit)) units act :
+Lemma sinv_add_learnt (st1 : sst) why lits (w : option (lit * lit)) units act ok :
   SInv st1 ->
   (forall x, w = Some x -> In (fst x) lits /\ In (snd x) lits /\ fst x <> snd x) ->
   SInv (mkS (s_enc st1) (s_db st1 ++ [mkCl (KLearnt why) lits])
             (match w with Some x => start_watching (s_ps st1) (N.of_nat (length (s_db st1))) x | None => s_ps st1 end)
-            (s_asserts st1) units act (s_start st1) (s_log st1) (s_order st1)).
+            (s_asserts st1) units act (s_start st1) (s_log st1) (s_order st1) ok).
 Proof.
   intros [A1 B C D] Hw. constructor; simpl.
   - exact A1.
@@ -414,7 +414,7 @@ Proof.
   - simpl in H.
     match type of H with
     | context [s_undo_until ?X ?T] =>
-        assert (H2 : SInv X) by (apply (sinv_add_learnt st1 (r_why r) [f] None _ _ H1); intros x E; discriminate E);
+        assert (H2 : SInv X) by (apply (sinv_add_learnt st1 (r_why r) [f] None _ _ _ H1); intros x E; discriminate E);
         pose proof (sinv_undo_until X [] T H2) as H3
     end.
     match type of H with
@@ -426,7 +426,7 @@ Proof.
     match type of H with
     | context [s_undo_until ?X ?T] =>
         assert (H2 : SInv X);
-        [ apply (sinv_add_learnt st1 (r_why r) (f :: g :: t) (Some (f, last)) _ _ H1);
+        [ apply (sinv_add_learnt st1 (r_why r) (f :: g :: t) (Some (f, last)) _ _ _ H1);
           intros x E; inversion E; subst x; cbn [fst snd];
           split; [left; reflexivity | split; [apply in_rev; rewrite Er; left; reflexivity
                  | intro E'; subst; rewrite lit_eqb_refl in Efl; discriminate]]
@@ -452,7 +452,7 @@ Proof.
   destruct (s_propagate st level) as [[st1 [conf|]]|] eqn:Ep; [| |exact I].
   - pose proof (sinv_propagate _ _ _ _ HS Ep) as H1.
     destruct (N.eqb level 1).
-    + destruct (unsolvable (s_db st1) (ps_trail (s_ps st1)) conf) as [[core ok]|]; [exact H1 | exact I].
+    + destruct (unsolvable (s_db st1) (ps_trail (s_ps st1)) conf) as [[core ok]|]; [apply (sinv_eq st1); auto | exact I].
     + destruct (learn U a_conflict st1 conf) as [[st2 lv]|] eqn:El; [|exact I].
       apply IH. apply (sinv_learn _ _ _ _ H1 El).
   - apply (sinv_propagate _ _ _ _ HS Ep).
@@ -473,7 +473,7 @@ Qed.
 Lemma sinv_reject st so start conf : SInv st -> run_inv (reject st so start conf).
 Proof.
   intro HS. unfold reject. destruct (N.eqb start 0).
-  - destruct (unsolvable (s_db st) (ps_trail (s_ps st)) conf) as [[core ok]|]; [exact HS | exact I].
+  - destruct (unsolvable (s_db st) (ps_trail (s_ps st)) conf) as [[core ok]|]; [apply (sinv_eq st); auto | exact I].
   - destruct (s_assign (s_undo_until st start) (so_var so, false) (N.succ start) 0) as [st2|] eqn:Ea; [|exact I].
     apply (sinv_assign _ _ _ _ _ _ (sinv_undo_until _ _ _ HS) Ea).
 Qed.
@@ -536,7 +536,7 @@ Theorem solve_inv fuel efuel a0 order o st :
   solve U P a_ge a_conflict fuel efuel a0 order = (o, st) -> SInv st.
 Proof.
   unfold solve.
-  set (st0 := mkS (estate0 cache0) [mkCl KRoot [(VRoot, true)]] ps0 [] [] a0 0 [] order).
+  set (st0 := mkS (estate0 cache0) [mkCl KRoot [(VRoot, true)]] ps0 [] [] a0 0 [] order true).
   assert (H0 : SInv st0).
   { constructor; simpl; [apply einv0 | reflexivity | apply winv0 | reflexivity]. }
   pose proof (sinv_run_sat fuel efuel st0 None H0) as H1.
